@@ -974,6 +974,39 @@ fn c15_props(tier: &str, seed: u64, threads: usize, out: &str) {
         ctx.count("cases");
     });
     extra.insert("twins".into(), format!("{ntw} histories with two live node objects of one key, run on both members of a pair (differential only)"));
+    // ownership histories: the executor holds exactly the handles the program says (containers as the only owner of
+    // connected nodes, nodes taken back out of them, handles dropped early); what is released when, the degrees seen
+    // through surviving handles and what results keep alive must not depend on the member of the pair
+    exec::new_section();
+    let nown = if quick { 300 } else { 6000 };
+    spread_with(&mut ctxs, nown, |i, ctx| {
+        let mut rng = Rng::new(seed.wrapping_mul(101).wrapping_add(i as u64));
+        let (a, b) = if i % 2 == 0 { ("di", "sdi") } else { ("un", "sun") };
+        let id = format!("ow{i}");
+        let nn = 2 + rng.below(4);
+        let lines = if i % 3 == 0 { exec_own::gen_walk_case(&mut rng, a, &id) } else { exec_own::gen_history(&mut rng, a, &id, nn, if quick { 60 } else { 90 }) };
+        let mut lines_b = lines.clone();
+        lines_b[0] = format!("case {b} {id}");
+        let mut ca = Ctx::default();
+        let mut cb = Ctx::default();
+        exec_own::run_program(&lines, &mut ca);
+        exec_own::run_program(&lines_b, &mut cb);
+        ctx.side_prog.extend(lines.iter().cloned());
+        for j in 0..ca.outs.len().max(cb.outs.len()) {
+            let (x, y) = (ca.outs.get(j).cloned().unwrap_or("<missing>".into()), cb.outs.get(j).cloned().unwrap_or("<missing>".into()));
+            if x != y {
+                let req = ca.prog.get(j).cloned().unwrap_or_default();
+                ctx.fail(&lines[0], j.saturating_sub(1), "c15", format!("(ownership history) `{}`: {a} gives `{}` but {b} gives `{}`", req, x, y));
+                if let Some(f) = ctx.fails.last_mut() {
+                    f.side = true;
+                }
+                break;
+            }
+        }
+        ctx.count("pairs.ownership");
+        ctx.count("cases");
+    });
+    extra.insert("ownership".into(), format!("{nown} ownership histories run on both members of a pair (differential only)"));
     write_outputs(out, &ctxs, extra);
 }
 
